@@ -1,0 +1,24 @@
+//go:build verif
+
+package hamt
+
+// VerifHashBitsNext exposes the reader-side hash slicing to the verification
+// harness: it consumes the given widths in order from b and returns the
+// indices produced, stopping at the first error.
+func VerifHashBitsNext(b []byte, widths []int) ([]int, error) {
+	hb := &hashBits{b: b}
+	out := make([]int, 0, len(widths))
+	for _, w := range widths {
+		v, err := hb.Next(w)
+		if err != nil {
+			return out, err
+		}
+		out = append(out, v)
+	}
+	return out, nil
+}
+
+// VerifHash exposes the name hash used for bucket selection.
+func VerifHash(val []byte) []byte {
+	return hash(val)
+}
